@@ -54,6 +54,8 @@ func (m *Mint) checkInvoicePaid(ctx context.Context, quoteId string) {
 		if invoice.Settled {
 			// the quote may have moved on since the subscription started (polled, or already
 			// issued): only an UNPAID quote becomes PAID
+			m.mintQuoteMu.Lock()
+			defer m.mintQuoteMu.Unlock()
 			currentQuote, err := m.db.GetMintQuote(quoteId)
 			if err != nil {
 				m.logErrorf("could not get mint quote '%v' from db: %v", quoteId, err)
